@@ -331,8 +331,8 @@ func allCases(rng *rand.Rand, quick bool) []Case {
 						}
 						for _, w := range waits {
 							q := byte(1 + rng.Intn(2))
-							if mode == "online" || mode == "idle" {
-								q = byte(rng.Intn(3))
+							if mode == "online" || mode == "idle" || mode == "offline" {
+								q = byte(rng.Intn(3)) // QoS 0 messages are queued for an offline session as well (queue_qos0_messages)
 							}
 							cs = append(cs, Case{Pub: pub, E: e, C: cc, SubV: sv, Mode: mode, WaitMs: w, QoS: q})
 						}
@@ -346,7 +346,7 @@ func allCases(rng *rand.Rand, quick bool) []Case {
 		seen := map[string]bool{}
 		var keep, rest []Case
 		for _, c := range cs {
-			k := fmt.Sprintf("%s|%s|%d|%v|%v|%v", c.Pub, c.Mode, c.SubV, c.C == 0, time.Duration(c.WaitMs)*time.Millisecond > c.lifetime(), c.WaitMs > 4300 && c.E >= 10)
+			k := fmt.Sprintf("%s|%s|%d|%v|%v|%v|%v", c.Pub, c.Mode, c.SubV, c.C == 0, time.Duration(c.WaitMs)*time.Millisecond > c.lifetime(), c.WaitMs > 4300 && c.E >= 10, c.QoS == 0 && c.Mode == "offline" && c.E >= 3)
 			if !seen[k] {
 				seen[k] = true
 				keep = append(keep, c)
@@ -354,8 +354,8 @@ func allCases(rng *rand.Rand, quick bool) []Case {
 				rest = append(rest, c)
 			}
 		}
-		if len(keep) > 80 {
-			keep = keep[:80]
+		if len(keep) > 96 {
+			keep = keep[:96]
 		}
 		return keep
 	}
